@@ -111,7 +111,17 @@ func (c13) Run(c *mon.Ctx, i int) {
 			dict1 = gen.Make(r, "alpha16", r.Range(10, 400)).B
 		}
 	}
-	if kind == "zlib" && dict0 != nil && r.Chance(1, 3) {
+	longDict := false
+	if kind == "zlib" && i%8 == 3 {
+		// dictionaries of one window and more on both streams; the next stream
+		// begins with a match at the largest distance (the first dictionary byte
+		// a decoder may still need)
+		longDict = true
+		dict0 = gen.Make(r, "text", r.Pick(300, 32768, 40000)).B
+		dict1 = gen.Make(r, "alpha16", r.Pick(32768, 32769, 32770, 40000, 70000)).B
+		c.Count("zlib-long-dictionary-cases", 1)
+	}
+	if kind == "zlib" && dict0 != nil && !longDict && r.Chance(1, 3) {
 		// a rolling dictionary: the caller reuses one buffer; its contents are
 		// replaced in place between the streams and the same slice is passed to Reset
 		rolling = true
@@ -162,13 +172,20 @@ func (c13) Run(c *mon.Ctx, i int) {
 
 	// next input
 	nextKind := []string{"valid", "valid", "reach-before-start", "stale-table", "truncated", "valid-dict", "fixed-with-matches"}[r.Intn(7)]
+	if longDict {
+		nextKind = "valid-dict"
+	}
 	var nextDeflate, nextPlain []byte
 	valid := false
 	nextDesc := nextKind
 	switch nextKind {
 	case "valid", "valid-dict":
 		if kind == "zlib" && dict1 != nil {
-			nextDeflate, nextPlain = synthDictStream(r, dict1, r.Range(1, 3000))
+			if longDict {
+				nextDeflate, nextPlain = synthDictStreamFar(r, dict1, r.Range(1, 3000))
+			} else {
+				nextDeflate, nextPlain = synthDictStream(r, dict1, r.Range(1, 3000))
+			}
 			nextDesc += " synthesised stream with matches into the dictionary"
 		} else {
 			vs := RandomValidStream(r, 60000)
